@@ -740,16 +740,23 @@ def stale_history(rep, spec):
 
 def space_stale(ctx, rep):
     rep.space("stale_view", STALE_DESC)
-    spec = {"cls": "StripedSequence", "protein": False, "L": 100, "M": 40, "arm": None, "kind": "stale_view",
-            "history": [["view"], ["calc", 40], ["read view"]]}
-    vxpy.crumb({"module": "C18", "case": spec})
-    before, checksum, expected = stale_history(rep, spec)
-    rep.eval(True)
-    rep.add_states(3, 2, depth=2)
-    rep.sample(dict(spec, checksum_before=before, checksum_after=checksum, expected=expected))
-    rep.note("stale_view: sum(bytes(view)) before reuse %d, after the reallocating reuse %d, logical contents %d (%s)"
-             % (before, checksum, expected, "same bytes - undecidable by value, needs the memory monitor" if checksum == expected
-                else "DIFFERENT bytes read through the stale pointer"))
+    # widths 5, 15, 33 need at most the 32 reserved look-ahead rows: the view must stay valid;
+    # width 40 forces a reallocation (the recorded finding). Each history is its own case for the monitor.
+    for arm in (None, "generic"):
+        for M in (5, 15, 33, 40):
+            spec = {"cls": "StripedSequence", "protein": False, "L": 100, "M": M, "arm": arm, "kind": "stale_view",
+                    "history": [["view"], ["calc", M], ["read view"]]}
+            module = "C18 view held across calculate(width %d) arm=%s" % (M, arm or "default")
+            if not vxpy.crumb({"module": module, "case": spec}):
+                continue
+            before, checksum, expected = stale_history(rep, spec)
+            rep.eval(True)
+            rep.add_states(3, 2, depth=2)
+            rep.sample(dict(spec, checksum_before=before, checksum_after=checksum, expected=expected))
+            if checksum != expected:
+                rep.violation("C18 StripedSequence view held across calculate(width %d) shows different bytes" % M,
+                              "sum(bytes(view)) %d before, %d after the reuse, logical contents %d" % (before, checksum, expected), dict(spec))
+    rep.note("stale_view: a view held across a reuse is decided by the memory monitor (the freed block usually still holds the right bytes)")
 
 
 def run(ctx, rep):
